@@ -36,6 +36,7 @@ def runCase (lines : Array String) : Array String := Id.run do
     | ["cancelresume", _, _, _] => out := out.push "cancelresume ok"
     | ["livechain", _, _, _] => out := out.push "livechain ok"
     | ["panicresume", _, _, _] => out := out.push "panicresume ok"
+    | ["livepanic", _, _, _, _] => out := out.push "livepanic ok"
     | ["restart"] =>
       s := stepOp plan s .restart
       out := out.push "restart"
